@@ -28,11 +28,20 @@ Definition sumZ (lo hi : Z) (f : Z -> Z) : Z := sum_n (Z.to_nat (hi - lo)) lo f.
 
 Definition lsum (l : list Z) (f : Z -> Z) : Z := fold_right (fun i acc => f i + acc) 0 l.
 
+Definition range (n : Z) : list Z := map Z.of_nat (seq 0 (Z.to_nat n)).
+
 Definition qnth (E : list Q) (b : Z) : Q := nth (Z.to_nat b) E 0%Q.
 Definition qlast (E : list Q) : Q := qnth E (len E - 1).
 
 (* strictly increasing edges *)
 Definition incr (E : list Q) : Prop := forall a b, 0 <= a -> a < b -> b < len E -> (qnth E a < qnth E b)%Q.
+
+(* the same, decidable (adjacent edges) *)
+Fixpoint incrb (E : list Q) : bool :=
+  match E with
+  | [] => true
+  | x :: t => match t with [] => true | y :: _ => Qltb x y && incrb t end
+  end.
 
 Definition in_bin (E : list Q) (b : Z) (x : Q) : bool :=
   (if b =? 0 then Qle_bool (qnth E 0) x else Qltb (qnth E b) x) && Qle_bool x (qnth E (b + 1)).
@@ -81,10 +90,22 @@ Definition kppi_half_wsum (n : Z) (E PI : list Q) (W : list Z) (b p : Z) : Z :=
   sumZ 0 n (fun a => sumZ 0 n (fun bb => sumZ 0 (n / 2 + 1) (fun k =>
     smult n k * at_half n W a bb k * ind_kppi E PI b p (f2 n a + f2 n bb) (k ^ 2)))).
 
+(* the reduced output arrays, flat (Nk x Nmu), as the specification wants them *)
+Definition kmu_spec_counts (n : Z) (E M : list Q) : list Z :=
+  let Nmu := len M - 1 in
+  map (fun c => kmu_full_count n E M (c / Nmu) (c mod Nmu)) (range ((len E - 1) * Nmu)).
+Definition kmu_spec_wsums (n : Z) (E M : list Q) (W : list Z) : list Z :=
+  let Nmu := len M - 1 in
+  map (fun c => kmu_half_wsum n E M W (c / Nmu) (c mod Nmu)) (range ((len E - 1) * Nmu)).
+Definition kppi_spec_counts (n : Z) (E PI : list Q) : list Z :=
+  let Npi := len PI - 1 in
+  map (fun c => kppi_full_count n E PI (c / Npi) (c mod Npi)) (range ((len E - 1) * Npi)).
+Definition kppi_spec_wsums (n : Z) (E PI : list Q) (W : list Z) : list Z :=
+  let Npi := len PI - 1 in
+  map (fun c => kppi_half_wsum n E PI W (c / Npi) (c mod Npi)) (range ((len E - 1) * Npi)).
+
 (* a valid schedule: every iteration of the parallel loop runs on one of the T threads *)
 Definition valid_sched (T : Z) (sched : Z -> Z) : Prop := forall i, 0 <= sched i < T.
-
-Definition range (n : Z) : list Z := map Z.of_nat (seq 0 (Z.to_nat n)).
 
 (* Legendre polynomials by the Bonnet recursion  (l+1) P_{l+1} = (2l+1) x P_l - l P_{l-1}  *)
 Fixpoint legendre_pair (l : nat) (x : Q) : Q * Q :=   (* (P_l, P_{l-1}) *)
